@@ -68,6 +68,27 @@ class Ctx:
                 self.touched.setdefault(fi.qualname, fi)
         if gone:
             chk.note('anchored functions no longer present under that name (not in the scope of <PID>.defined): ' + ', '.join(gone))
+        # ... and so are the private helpers they do their work with (self._h() / cls._h() / module-level _h(), two calls deep)
+        frontier = list(self.touched.values())
+        for _ in range(2):
+            nxt = []
+            for fi in frontier:
+                ci = fi.cls
+                mi = self.prog.modules[fi.module]
+                for n in ast.walk(fi.node):
+                    if not isinstance(n, ast.Call):
+                        continue
+                    tgt = None
+                    f = n.func
+                    if isinstance(f, ast.Attribute) and isinstance(f.value, ast.Name) and f.value.id in ('self', 'cls') and ci is not None \
+                            and f.attr.startswith('_') and not f.attr.startswith('__'):
+                        tgt = self.prog.resolve_method(ci, f.attr)
+                    elif isinstance(f, ast.Name) and f.id.startswith('_') and f.id in mi.functions:
+                        tgt = mi.functions[f.id]
+                    if tgt is not None and hasattr(tgt, 'qualname') and tgt.qualname not in self.touched:
+                        self.touched[tgt.qualname] = tgt
+                        nxt.append(tgt)
+            frontier = nxt
         for qn, fi in sorted(self.touched.items()):
             mi = self.prog.modules[fi.module]
             if fi.module not in names:
@@ -83,8 +104,11 @@ class Ctx:
             bad = undefined_reads(fi.node, names[fi.module], enclosing)
             from .defined import swapped_arguments
             sw = swapped_arguments(self.prog, mi, fi.cls, fi.node)
+            from .defined import mutable_defaults
+            sw = list(sw) + mutable_defaults(fi.node)
             chk.ob(f'{chk.pid}.arguments', qn, not sw, loc(fi, sw[0][0]) if sw else loc(fi, fi.node),
-                   'arguments passed by name to a callee of the package sit in the positions of the parameters of the same name (no two swapped)',
+                   'arguments passed by name to a callee of the package sit in the positions of the parameters of the same name (no two swapped); '
+                   'no parameter defaults to a mutable object (it would be shared between calls, hands and instances)',
                    got='; '.join(w for _, w in sw[:2]) if sw else '')
             chk.ob(f'{chk.pid}.defined', qn, not bad, loc(fi, bad[0][1]) if bad else loc(fi, fi.node),
                    'every name the function reads is bound on the way: nothing is read that no statement defines, and a local bound '
